@@ -129,7 +129,8 @@ PROBES = [
     "apply_after_apply_fail_same_base", "apply_fail_after_joins_recorded",
     "cache_hit", "cache_miss", "cache_eviction", "same_shape_different_literals",
     "style_sa_select", "style_sa_legacy", "style_sa_core", "style_dj_qs",
-    "style_sa_select_aliased", "join_form_joinedload", "join_form_core_join", "op_distinct",
+    "style_sa_select_aliased", "join_form_joinedload", "join_form_core_join",
+    "join_form_aliased_rel", "apply_navigates_other_rel_to_aliased_target", "op_distinct",
     "op_only", "style_dj_manager", "style_dj_custom_manager", "style_dj_related_manager", "join_form_rel", "join_form_outer_rel", "join_form_target_on",
     "join_form_target", "join_form_select_related", "host_func_used", "gc_between_ops",
     "chain_depth_ge_3",
@@ -267,7 +268,8 @@ def execute(plan, pristine, deep=False):
                 nstyle = "dj_qs" if style in MANAGER_STYLES else style
                 nq = add(i, nstyle, root, obj, preds, order, joins, ann, base.chain + [op],
                          base.depth, base.qid)
-                if k == "join" and op["j"]["form"] not in ("joinedload", "core_join"):
+                if k == "join" and op["j"]["form"] not in ("joinedload", "core_join",
+                                                           "aliased_rel"):
                     nq.have.add((op["j"]["owner"], op["j"]["rel"]))
                 check_intact(base, op, "after-host-op")
                 log.append((k, i, base.qid))
@@ -315,6 +317,11 @@ def execute(plan, pristine, deep=False):
                     probes["apply_on_manager"] += 1
                 if need:
                     probes["apply_with_navigation"] += 1
+                    for j in base.joins:
+                        if j["form"] == "aliased_rel" and any(
+                                T.TO_ONE[o][r][1] == T.TO_ONE[j["owner"]][j["rel"]][1]
+                                for o, r in need):
+                            probes["apply_navigates_other_rel_to_aliased_target"] += 1
                 if T.uses(t, "coll") or T.uses(t, "coll2"):
                     probes["apply_with_lambda"] += 1
                 if T.uses(t, "coll2"):
@@ -515,10 +522,13 @@ class _G:
         self.joins, self.order, self.annotated = list(joins), order, annotated
         self.paths = set(paths)   # to-one paths (tuples) already navigated or joined
         self.applied = applied
+        self.aliased = set()      # root-level relationships joined through a host alias
 
     def derive(self, i, **kw):
         g = _G(i, "dj_qs" if self.style in MANAGER_STYLES else self.style, self.root,
                self.depth, self.joins, self.order, self.annotated, self.paths, self.applied)
+        g.aliased = set(self.aliased)
+        g.distinct = getattr(self, "distinct", False)
         for k, v in kw.items():
             setattr(g, k, v)
         return g
@@ -607,6 +617,8 @@ def gen_plan(seed, run, finding_shapes=True):
                 continue
             rel = rng.choice(rels)
             path = tuple(via + [rel])
+            if not via and rel in g.aliased:
+                continue
             if path in g.paths or not _path_ok(g.root, g.paths, [path]):
                 continue
             i = nid()
@@ -614,8 +626,22 @@ def gen_plan(seed, run, finding_shapes=True):
                 j = {"owner": owner, "rel": rel, "via": via, "form": "select_related",
                      "path": "__".join(path)}
             else:
-                forms = ["rel", "rel", "outer_rel", "target_on", "target", "joinedload"]
+                forms = ["rel", "rel", "outer_rel", "target_on", "target", "joinedload",
+                         "aliased_rel"]
                 form = rng.choice(forms)
+                if form == "target" and owner == "Comment" and rel != "post":
+                    form = "target_on"    # two foreign keys to author: join(Author) is ambiguous
+                if form == "aliased_rel":
+                    if via or rel in g.aliased:
+                        form = "rel"
+                    else:
+                        i = nid()
+                        j = {"owner": owner, "rel": rel, "via": via, "form": form}
+                        ops.append({"i": i, "op": "join", "base": g.i, "j": j})
+                        ng = g.derive(i, joins=g.joins + [j])
+                        ng.aliased.add(rel)
+                        gs.append(ng)
+                        continue
                 if form == "joinedload":
                     if via:
                         form = "rel"
@@ -667,6 +693,8 @@ def gen_plan(seed, run, finding_shapes=True):
                         and x.style.startswith("dj") == last_template[2].style.startswith("dj")
                         and (x.style == "sa_core") == (last_template[2].style == "sa_core")]
                 cand = last_template[1]
+                same = [x for x in same
+                        if not any(pth[0] in x.aliased for pth in T.nav_paths(cand))]
                 if same and (not T.uses(cand, "ann")):
                     g2 = rng.choice(same)
                     newp = set()
@@ -696,6 +724,8 @@ def gen_plan(seed, run, finding_shapes=True):
                     t = None
                 if t and T.uses(t, "coll2") and not dj:
                     t = None
+                if t and any(pth[0] in g.aliased for pth in T.nav_paths(t)):
+                    t = None
             for _ in range(6):
                 if t is not None:
                     break
@@ -703,7 +733,8 @@ def gen_plan(seed, run, finding_shapes=True):
                                       want_nav=bool(g.joins) and rng.random() < 0.6,
                                       annotated=g.annotated and dj, allow_all=not dj,
                                       allow_fn=True, allow_coll2=dj)
-                if _path_ok(g.root, g.paths, T.nav_paths(cand)):
+                if _path_ok(g.root, g.paths, T.nav_paths(cand)) and \
+                        not any(pth[0] in g.aliased for pth in T.nav_paths(cand)):
                     t = cand
             if t is None:
                 t = T.gen_scalar(rng, g.root)
@@ -1105,15 +1136,16 @@ SYS_DATA = {
              {"id": 2, "title": "beta", "rating": 2, "author_id": None},
              {"id": 3, "title": "alpha", "rating": 3, "author_id": 2},
              {"id": 4, "title": "gamma", "rating": 0, "author_id": 1}],
-    "Comment": [{"id": 1, "body": "nice", "post_id": 1, "writer_id": 2},
-                {"id": 2, "body": "cool", "post_id": 3, "writer_id": None},
-                {"id": 3, "body": "nice", "post_id": 1, "writer_id": 1},
-                {"id": 4, "body": "meh", "post_id": 2, "writer_id": 3}],
+    "Comment": [{"id": 1, "body": "nice", "post_id": 1, "writer_id": 2, "reviewer_id": 1},
+                {"id": 2, "body": "cool", "post_id": 3, "writer_id": None, "reviewer_id": 2},
+                {"id": 3, "body": "nice", "post_id": 1, "writer_id": 1, "reviewer_id": None},
+                {"id": 4, "body": "meh", "post_id": 2, "writer_id": 3, "reviewer_id": 1}],
 }
 SYS_STYLES = ["sa_select", "sa_select_aliased", "sa_legacy", "sa_core", "dj_qs", "dj_manager",
               "dj_custom_manager", "dj_related_manager"]
 SYS_SHAPES = ["plain", "where", "order", "join_rel", "join_outer", "join_target_on",
-              "join_joinedload", "join_other", "join_two_used_first", "join_two_used_last",
+              "join_joinedload", "join_other", "join_aliased_other", "join_two_used_first",
+              "join_two_used_last",
               "annotated", "distinct", "chained"]
 SYS_FILTERS = ["scalar", "fn", "nav1", "nav_post", "nav2", "any", "all", "any0", "any2"]
 
@@ -1206,7 +1238,13 @@ def _sys_history(style, root, shape, fkind):
                         "j": {"owner": root, "rel": rel, "via": [], "form": form}})
     elif shape.startswith("join_"):
         form = {"outer": "outer_rel"}.get(shape[5:], shape[5:])
-        if shape == "join_other":
+        if shape == "join_aliased_other":
+            # the host joins Comment.reviewer through its own alias of Author; the
+            # filter navigates the other relationship to that entity (writer)
+            if root != "Comment" or core or dj or fkind == "nav2":
+                return None
+            rel, form = "reviewer", "aliased_rel"
+        elif shape == "join_other":
             if other is None or core:
                 return None
             rel, form = other, "rel"
@@ -1214,7 +1252,7 @@ def _sys_history(style, root, shape, fkind):
             rel = rel1
         if rel is None:
             return None
-        if fkind == "nav2" and rel == "writer":
+        if fkind == "nav2" and rel == "writer" and form != "aliased_rel":
             return None      # two join paths to one table: input-level limitation (6.1)
         if core:
             if form != "rel":
